@@ -26,10 +26,13 @@ names; a detach drops exactly the specs whose target left the node and touches n
 raising call leaves every object unchanged and `shard` / `set_pipeline_stage` raise exactly for the
 invalid requests; a round trip / clone reproduces the annotations on the new objects.
 
-A third, oracle-only stream runs the same oracles on random models with subgraphs and *functions*
-(functions are not in the Lean model) at IR versions 10-12, including `Function.clone`,
-`Graph.clone(allow_outer_scope_values=True)`, `deep_copy=True` and `InlinePass` (the `mapped is None`
-branch of the clone remap).  Exceptions are compared by type against the documented rejections.
+Functions (`newFunction`, editing / annotating `function.graph`, `cloneFunc` = `Function.clone` registered under
+a new name), `Graph.clone(allow_outer_scope_values=True)` (`cloneSub`: the clone is attached to a node) and
+`Model.clone` / round trips of models with functions are in the model and in both streams.
+
+A third, oracle-only stream runs the same oracles on random models with subgraphs, functions, graph outputs and
+call nodes at IR versions 10-12, including `InlinePass` (the `mapped is None` branch of the clone remap, not
+modelled).  Exceptions are compared by type against the documented rejections.
 """
 from __future__ import annotations
 
@@ -49,13 +52,24 @@ THEOREMS = [
     "IrVerif.Device.C19_checks_precede_writes",
     "IrVerif.Device.C19_serializable",
     "IrVerif.Device.C19_roundtrip_faithful",
+    "IrVerif.Device.C19_name_frame",
+    "IrVerif.Device.C19_names_current",
+    "IrVerif.Device.C19_roundtrip_legacy",
 ]
 ASSUMPTIONS = [
     "graphs nest (a node may own subgraphs - GRAPH and GRAPHS attributes - whose nodes use outer-scope values) and "
     "own initializers (sharded like any other value); clone and the by-name resolution through all enclosing scopes "
-    "are inside the model and the theorems; functions and graph outputs are not modelled (functions, "
-    "Function.clone, Graph.clone(allow_outer_scope_values=True), deep_copy and InlinePass - the 'mapped is None' "
-    "branch of the clone remap - are exercised by the oracle-only stream on random models at IR versions 10-12)",
+    "are inside the model and the theorems; so are functions (ops newFunction / cloneFunc: a function body is a graph "
+    "without initializers - the generator never registers one there -, edited and annotated through function.graph; "
+    "cloneFunc = Function.clone + registration under a new name) and Graph.clone(allow_outer_scope_values=True) "
+    "(op cloneSub: the clone is attached to a node as a further GRAPH attribute); graph / function outputs, function "
+    "attributes, call nodes and InlinePass (the 'mapped is None' branch of the clone remap) are not modelled and are "
+    "exercised by the oracle-only stream on random models at IR versions 10-12",
+    "round trips below IR version 11 (C19_roundtrip_legacy: closed lists, unique names) count as in-alphabet: the "
+    "driver evaluates the theorem's hypotheses for every such round trip and reports them through the same `pre` flag",
+    "C19_names_current: its hypotheses (a successful rename of v, Pre for every later operation, no later rename of "
+    "v) are evaluated on every generated history; for each such (rename, later step) pair every serialized spec that "
+    "targets v is compared with the assigned name on the real NodeProtos (histogram key names_current_instances)",
     "a model's flat node / graph lists in the Lean world are compared as sets with graph.all_nodes() / "
     "Model.graphs() after every operation; checker output and serialized fields are compared per node",
     "annotation records are those the public API creates, or directly assigned tuples of the same shape "
@@ -157,7 +171,34 @@ class Real:
 
     @staticmethod
     def all_nodes(model):
-        return list(model.graph.all_nodes())
+        """graph.all_nodes() followed by every function's all_nodes() (what the checker, the cascade and the
+        deserializer's resolution pass enumerate)"""
+        ns = list(model.graph.all_nodes())
+        for f in model.functions.values():
+            ns += list(f.all_nodes())
+        return ns
+
+    @staticmethod
+    def model_graphs(model):
+        """Model.graphs() followed by every function's body graph and its subgraphs"""
+        gs = list(model.graphs())
+        for f in model.functions.values():
+            gs.append(f.graph)
+            gs += list(f.subgraphs())
+        return gs
+
+    @staticmethod
+    def _proto_nodes_model(proto):
+        """all NodeProtos of a ModelProto in the order of all_nodes(): the graph, then every function"""
+        yield from Real._proto_nodes(proto.graph)
+        for fp in proto.functions:
+            for np_ in fp.node:
+                yield np_
+                for at in np_.attribute:
+                    if at.HasField("g"):
+                        yield from Real._proto_nodes(at.g)
+                    for g in at.graphs:
+                        yield from Real._proto_nodes(g)
 
     # ---- canonical state
     @staticmethod
@@ -248,7 +289,7 @@ class Real:
         except Exception:
             return "raised", None
         nodes = self.all_nodes(model)
-        pn = list(self._proto_nodes(proto.graph))
+        pn = list(self._proto_nodes_model(proto))
         # serialization keeps the all_nodes() order
         if len(pn) != len(nodes) or any(a.name != (b.name or "") for a, b in zip(pn, nodes)):
             return "node-mismatch", proto
@@ -264,10 +305,11 @@ class Real:
             models.append(
                 {
                     "g": self.gid[id(m.graph)],
-                    "gs": sorted(self.gid[id(g)] for g in m.graphs()),
+                    "gs": sorted(self.gid[id(g)] for g in self.model_graphs(m)),
                     "n": sorted(self.nid[id(n)] for n in self.all_nodes(m)),
                     "c": [self.cid[id(c)] for c in m.device_configurations],
                     "ir": m.ir_version,
+                    "f": [self.gid[id(f.graph)] for f in m.functions.values()],
                     "chk": self.check_by_node(m),
                     "ser": ser,
                 }
@@ -292,13 +334,13 @@ class Real:
 
     def model_of(self, node):
         for m in self.models:
-            if any(node.graph is g for g in m.graphs()):
+            if any(node.graph is g for g in self.model_graphs(m)):
                 return m
         return None
 
     def model_of_graph(self, graph):
         for m in self.models:
-            if any(graph is g for g in m.graphs()):
+            if any(graph is g for g in self.model_graphs(m)):
                 return m
         return None
 
@@ -347,6 +389,7 @@ class Real:
         "replaceInput": {"ValueError"}, "resizeOutputs": {"ValueError"}, "removeNode": {"ValueError"},
         "attachNode": {"ValueError"}, "newInit": {"ValueError"}, "rename": {"ValueError"},
         "clone": {"RuntimeError"},  # _capture_error_context wraps the ValueError of an outer-scope value
+        "cloneFunc": {"RuntimeError", "IndexError"}, "cloneSub": {"RuntimeError"},
         "roundTrip": {"SerdeError", "ValueError"},  # unnamed sharded value / redeclared output
     }
 
@@ -456,7 +499,30 @@ class Real:
         elif k == "clone":
             m2 = self.models[op["m"]].clone(deep_copy=bool(op.get("deep")))
             self._reg_clone_graph(m2.graph)
+            for f in m2.functions.values():
+                self._reg_clone_graph(f.graph)
             self.models.append(m2)
+        elif k == "newFunction":
+            g = ir.Graph([], [], nodes=[], opset_imports={"": 20}, name=f"g{len(self.graphs)}")
+            f = ir.Function("custom", f"F{len(self.graphs)}", graph=g, attributes=[])
+            self.models[op["m"]].functions[f.identifier()] = f
+            self.reg_graph(g)
+        elif k == "cloneFunc":
+            model = self.models[op["m"]]
+            f = list(model.functions.values())[op["i"]]
+            f2 = f.clone(deep_copy=bool(op.get("deep")))
+            f2.name = f"F{len(self.graphs)}c"
+            model.functions[f2.identifier()] = f2
+            self._reg_clone_graph(f2.graph)
+        elif k == "cloneSub":
+            node = self.nodes[op["n"]]
+            g2 = self.graphs[op["g"]].clone(allow_outer_scope_values=True, deep_copy=bool(op.get("deep")))
+            if "gs" in node.attributes:
+                # this node keeps all its subgraphs in one GRAPHS attribute (see newSubgraph)
+                node.attributes.add(ir.AttrGraphs("gs", list(node.attributes["gs"].as_graphs()) + [g2]))
+            else:
+                node.attributes.add(ir.AttrGraph(f"cl{len(self.graphs)}", g2))
+            self._reg_clone_graph(g2)
         elif k == "roundTrip":
             import onnx
 
@@ -467,6 +533,8 @@ class Real:
             for c in m2.device_configurations:
                 self.reg_cfg(c)
             self._reg_deser_graph(m2.graph)
+            for f in m2.functions.values():
+                self._reg_deser_graph(f.graph)
             self.models.append(m2)
         elif k == "shardingOf":
             specs = self.nodes[op["n"]].sharding_of(self.values[op["v"]])
@@ -558,7 +626,7 @@ def oracle_names_current(real: Real, part, hist_id, step):
     for m, proto in zip(real.models, real.protos):  # protos of the state() call after this op
         if m.ir_version < 11 or proto is None:
             continue
-        for node, np_ in zip(real.all_nodes(m), real._proto_nodes(proto.graph)):
+        for node, np_ in zip(real.all_nodes(m), real._proto_nodes_model(proto)):
             ncs = node.device_configurations
             if len(ncs) != len(np_.device_configurations):
                 part.fail(f"serialized-count after {step['op']}", "number of serialized node configurations differs", {"history": hist_id, "step": step})
@@ -654,7 +722,7 @@ class Gen:
 
     def model_values(self, model):
         real = self.real
-        vs = [real.vid[id(v)] for g in model.graphs() for v in list(g.inputs) + list(g.initializers.values())]
+        vs = [real.vid[id(v)] for g in real.model_graphs(model) for v in list(g.inputs) + list(g.initializers.values())]
         for n in real.all_nodes(model):
             vs += [real.vid[id(v)] for v in list(n.inputs) + list(n.outputs) if v is not None]
         return sorted(set(vs))
@@ -688,6 +756,24 @@ class Gen:
             g, hops = pg, hops + 1
         return sorted(set(vs))
 
+    def ill_scoped(self, graph):
+        """some node under `graph` uses, as an input, a value defined inside its own subgraphs"""
+        real = self.real
+
+        def defined_under(node):
+            out = set()
+            for sg in real.subgraphs_of(node):
+                out |= {id(v) for v in sg.inputs} | {id(v) for v in sg.initializers.values()}
+                for k in sg:
+                    out |= {id(v) for v in k.outputs} | defined_under(k)
+            return out
+
+        for node in graph.all_nodes():
+            inner = defined_under(node)
+            if any(v is not None and id(v) in inner for v in node.inputs):
+                return True
+        return False
+
     def pick_value(self, model=None):
         """Any value of the world; in the strict stream a value of `model` (names stay unique per model)."""
         if not self.real.values:
@@ -701,7 +787,8 @@ class Gen:
 
     def setup(self):
         r = self.rng
-        ops = [{"op": "newModel", "ir": r.choice([11, 11, 11, 11, 12, 13, 10] if not self.strict else [11, 11, 12, 13])}]
+        # IR version 10: annotations are accepted by the API but not serialized (C19_roundtrip_legacy)
+        ops = [{"op": "newModel", "ir": r.choice([11, 11, 11, 11, 12, 13, 10] if not self.strict else [11, 11, 11, 12, 13, 10])}]
         return ops
 
     def gen_op(self):
@@ -712,7 +799,8 @@ class Gen:
         m = r.randrange(nm)
         model = real.models[m]
         nodes_in = [real.nid[id(n)] for n in real.all_nodes(model)]
-        graphs_in = list(model.graphs())
+        graphs_in = real.model_graphs(model)
+        func_roots = [f.graph for f in model.functions.values()]
         # the graph a construction op works on: the root graph or (often, once they exist) a subgraph
         graph = model.graph if (len(graphs_in) == 1 or r.random() < 0.45) else r.choice(graphs_in[1:])
         g = real.gid[id(graph)]
@@ -722,6 +810,7 @@ class Gen:
             ("resizeInputs", 4), ("newNode", 7), ("newInput", 3), ("removeNode", 4), ("clone", 3),
             ("roundTrip", 4), ("shardingOf", 2), ("removeCfgBad", 1), ("newSubgraph", 4),
             ("newInit", 4), ("newInitBad", 1), ("attachNode", 3), ("setShape", 2), ("setDev", 2), ("setModelCfgs", 1),
+            ("newFunction", 2), ("cloneFunc", 2), ("cloneSub", 3),
         ]
         if not strict:
             menu += [("wildShard", 6), ("removeCfgNoCascade", 2), ("renameWild", 3), ("setDevWild", 3),
@@ -736,6 +825,32 @@ class Gen:
             node = real.nodes[n]
             return [real.vid[id(x)] for x in list(node.inputs) + list(node.outputs) if x is not None]
 
+        if kind == "newFunction":
+            if len(func_roots) >= 2:
+                kind = "newNode"
+            else:
+                return {"op": "newFunction", "m": m}
+        if kind == "cloneFunc":
+            if not func_roots or len(func_roots) >= 3:
+                kind = "newNode"
+            else:
+                return {"op": "cloneFunc", "m": m, "i": r.randrange(len(func_roots)), "deep": r.random() < 0.3}
+        if kind == "cloneSub":
+            subs = [(real.nid[id(nd_)], real.gid[id(sg)]) for nd_ in real.all_nodes(model) for sg in real.subgraphs_of(nd_)]
+            if strict:
+                subs = [(n_, g_) for n_, g_ in subs if not self.ill_scoped(real.graphs[g_])]
+            if not subs:
+                kind = "newSubgraph"
+            else:
+                n_, g_ = r.choice(subs)
+                if not strict and r.random() < 0.3 and nodes_in:
+                    n_ = r.choice(nodes_in)  # attach the clone to another node of the model
+                    self.tainted = True
+                return {"op": "cloneSub", "n": n_, "g": g_, "deep": r.random() < 0.3}
+        if kind in ("newInit", "newInitBad") and any(graph is fg for fg in func_roots):
+            # function bodies have no initializers (FunctionProto cannot carry them)
+            graph = model.graph
+            g = real.gid[id(graph)]
         if kind == "newSubgraph":
             if not nodes_in:
                 kind = "newNode"
@@ -975,12 +1090,13 @@ class Gen:
 # --------------------------------------------------------------------------- one history
 
 
-def run_history(seed: int, strict: bool, length: int, part: Part, fixed_ops=None):
+def run_history(seed: int, strict: bool, length: int, part: Part, fixed_ops=None, raw=False):
     """Generate (or replay) one history on the real code, evaluating the oracle after every op.
     Returns (ops, real_steps)."""
     rng = random.Random(seed)
     real = Real()
     gen = Gen(rng, real, strict)
+    gen.raw = raw  # a replayed history that assigns a hand-built annotation tuple
     ops, steps = [], []
     hist_id = {"seed": seed, "strict": strict}
     todo = list(fixed_ops) if fixed_ops is not None else None
@@ -1022,6 +1138,22 @@ def run_history(seed: int, strict: bool, length: int, part: Part, fixed_ops=None
         ops.append(op)
         steps.append({"res": res, "out": out, "state": after, "facts": real_facts(real)})
         part.count(f"op={k}:{res}")
+        if any(n_.device_configurations for m_ in real.models for f_ in m_.functions.values() for n_ in f_.all_nodes()):
+            part.count("steps_with_annotated_function_node")
+        if k == "cloneSub" and res == "ok":
+            own = {id(v) for n_ in real.graphs[-1].all_nodes() for v in n_.outputs} | {id(v) for v in real.graphs[-1].inputs}
+            if any(id(sp.value) not in own for n_ in real.graphs[-1].all_nodes() for nc in n_.device_configurations
+                   for sp in nc.sharding_specs):
+                part.count("cloneSub_with_spec_on_outer_value")
+        if k == "roundTrip" and res == "ok" and real.models[op["m"]].ir_version < 11:
+            part.count("roundTrip_below_ir11")
+            if any(n_.device_configurations for n_ in real.all_nodes(real.models[op["m"]])):
+                part.count("roundTrip_below_ir11_of_annotated_model")
+            if real.models[-1].device_configurations:
+                part.fail("roundtrip-ir<11:model-configurations", "model configurations serialized below IR version 11",
+                          {"history": hist_id, "ops": list(ops)})
+        if k in ("clone", "roundTrip") and res == "ok" and real.models[-1].functions:
+            part.count(f"{k}_of_model_with_functions")
         if res == "ok" and k in ("shard", "setStage"):
             annotated = True
         if res == "ok" and k in ("replaceInput", "resizeInputs", "resizeOutputs", "removeNode", "rename", "clone", "roundTrip", "removeCfg"):
@@ -1061,12 +1193,52 @@ def run_history(seed: int, strict: bool, length: int, part: Part, fixed_ops=None
                 part.fail("sharding_of", "sharding_of() differs from the specs targeting the value", {"history": hist_id, "ops": ops_snapshot, "step": step_info})
         if k in ("clone", "roundTrip") and res == "ok":
             oracle_copy(real, part, hist_id, ops_snapshot, step_info, op, strict and not gen.tainted)
+        if k in ("cloneFunc", "cloneSub") and res == "ok" and not gen.raw:
+            oracle_subclone(real, part, hist_id, ops_snapshot, step_info, op)
         oracle_nodangle(real, part, {"history": hist_id, "ops": ops_snapshot}, step_info, strict and not gen.tainted, gen.raw)
         oracle_names_current(real, part, {"history": hist_id, "ops": ops_snapshot}, step_info)
         if todo is None and any(not f["signature"].startswith("accepted-unregistered-configuration:")
                                 for f in part["failures"][nfail0:]):
             break
     return ops, steps, annotated and edited
+
+
+def _by_names(nodes):
+    return [[(nc.configuration.name if nc.configuration is not None else None, nc.pipeline_stage,
+              [(s.value.name if s.value is not None else None, tuple(s.device),
+                tuple((d.axis, d.simple_shardings[0].num_shards) for d in s.sharded_dims)) for s in nc.sharding_specs])
+             for nc in n.device_configurations] for n in nodes]
+
+
+def oracle_subclone(real: Real, part, hist_id, ops, step_info, op):
+    """Function.clone / Graph.clone(allow_outer_scope_values=True): the new graph carries the annotations of the
+    source (by names), every cloned spec targets an input/output of its own (new) node, and no cloned spec
+    targets a value *defined inside* the source graph."""
+    if op["op"] == "cloneFunc":
+        model = real.models[op["m"]]
+        fs = list(model.functions.values())
+        src, dst = fs[op["i"]].graph, fs[-1].graph
+    else:
+        src, dst = real.graphs[op["g"]], real.graphs[-1]
+    b = list(dst.all_nodes())
+    newids = {id(n) for n in b}
+    a = [n for n in src.all_nodes() if id(n) not in newids]  # the clone may have been attached under the source
+    case = {"history": hist_id, "ops": ops, "step": step_info}
+    if _by_names(a) != _by_names(b):
+        part.fail(f"{op['op']}-annotations-differ", "annotations of the cloned graph differ from the source (by names)", case)
+    inner = set()
+    for n in a:
+        inner |= {id(v) for v in n.outputs}
+    for g in [src] + [sg for n in a for sg in Real.subgraphs_of(n)]:
+        inner |= {id(v) for v in g.inputs} | {id(v) for v in g.initializers.values()}
+    for n in b:
+        io = {id(v) for v in list(n.inputs) + list(n.outputs) if v is not None}
+        for nc in n.device_configurations:
+            for s in nc.sharding_specs:
+                if s.value is None or id(s.value) not in io:
+                    part.fail(f"dangling-spec after {op['op']}", "a cloned spec targets a value that is not an input/output of the cloned node", case)
+                elif id(s.value) in inner and op["op"] == "cloneFunc":
+                    part.fail(f"{op['op']}-aliases-source-value", "a cloned spec targets a value defined in the source graph", case)
 
 
 def oracle_copy(real: Real, part, hist_id, ops, step_info, op, strict):
@@ -1123,6 +1295,23 @@ def _lean(reqs):
             time.sleep(3)
 
 
+def _check_names_current(state, renamed, part, case, opname):
+    """C19_names_current on the real objects: every serialized spec that targets a value renamed earlier (and not
+    renamed since) carries the assigned name."""
+    for mm in state["models"]:
+        if mm["ir"] < 11 or not isinstance(mm["ser"], list):
+            continue
+        for nid_, cfgs in mm["ser"]:
+            dev = state["nodes"][nid_]["d"]
+            for (_c, specs, _st), (_cn, pspecs, _ps) in zip(dev, cfgs):
+                for sp, psp in zip(specs, pspecs):
+                    if sp[0] in renamed:
+                        part.count("names_current_instances")
+                        if psp[0] != renamed[sp[0]]:
+                            part.fail(f"names-current: stale tensor_name after {opname}",
+                                      "a serialized spec does not carry the name assigned by the last rename of its value", case)
+
+
 def compare(ops, steps, part: Part, info):
     out = _lean([{"m": "device.run", "ops": ops, "full": True}])[0]
     if "err" in out:
@@ -1130,8 +1319,13 @@ def compare(ops, steps, part: Part, info):
         return
     msteps = out["steps"]
     pre_ok = True  # the model's in-alphabet condition `Pre` held for every operation so far
+    renamed = {}  # value id -> name assigned by its last successful rename (hypotheses of C19_names_current)
     for i, (op, st, ms) in enumerate(zip(ops, steps, msteps)):
         pre_ok = pre_ok and bool(ms.get("pre"))
+        if op["op"] == "rename" and st["res"] == "ok" and pre_ok:
+            renamed[op["v"]] = op["name"]
+        if pre_ok and renamed:
+            _check_names_current(st["state"], renamed, part, {"info": info, "ops": ops[: i + 1]}, op["op"])
         f = st["facts"]
         case = {"info": info, "ops": ops[: i + 1]}
         if info.get("strict") and not ms.get("pre"):
@@ -1529,7 +1723,7 @@ def replay(ctx: Ctx, obj: dict) -> None:
         return
     part = Part()
     strict = bool(case.get("history", {}).get("strict", case.get("strict", False)))
-    ops2, steps, _ = run_history(0, strict, 0, part, fixed_ops=ops)
+    ops2, steps, _ = run_history(0, strict, 0, part, fixed_ops=ops, raw=bool(case.get("raw")))
     compare(ops2, steps, part, {"replay": True})
     ctx.case(ops2, nontrivial=True, stream="corpus")
     ctx.merge(part)
